@@ -134,6 +134,27 @@ mod verif_c15 {
         for k in 0..3 { assert!(o1.data()[k].p(0, 0) == o2.data()[k].p(0, 0), "stored config describes the encoding actually applied"); }
     }
 @LABEL@
+    /// label == content where the size heuristic depends on the orientation: a 1x480 image (concrete pixels: the solver's job here is
+    /// the symbolic execution of the real resolution logic at a real 480-line size, not a search over pixels)
+    #[kani::proof]
+    #[kani::unwind(483)]
+    #[kani::stub(yuvxyb_math::pow_exp::powf, stub_powf)]
+    #[kani::stub(yuvxyb_math::pow_exp::expf, stub_expf)]
+    #[kani::stub(v_frame::plane::Plane::new, stub_plane_new)]
+    #[kani::stub(yuvxyb_math::matrix::Matrix::mul_arr, yuvxyb_math::matrix::verif_stub_mul_arr)]
+    #[kani::stub(yuvxyb_math::matrix::Matrix::invert, yuvxyb_math::matrix::verif_stub_invert)]
+    fn k_c15_label_content_1x480() {
+        let in_sw: bool = kani::any();       // 1x480 or 480x1
+        let (w, h) = if in_sw { (1usize, 480usize) } else { (480usize, 1usize) };
+        let c = YuvConfig { bit_depth: 8, subsampling_x: 0, subsampling_y: 0, full_range: false, matrix_coefficients: MC::ST170M,
+            transfer_characteristics: TC::BT1886, color_primaries: CP::Unspecified };
+        let o1 = Yuv::<u8>::try_from((LinearRgb::new(vec![[0.25, 0.5, 0.75]; 480], w, h).unwrap(), c)).unwrap();
+        let l = o1.config();
+        assert!(l.color_primaries == (if h == 480 { CP::ST170M } else { CP::BT709 }), "primaries guessed from the real orientation");
+        let o2 = Yuv::<u8>::try_from((LinearRgb::new(vec![[0.25, 0.5, 0.75]; 480], w, h).unwrap(), l)).unwrap();
+        for k in 0..3 { assert!(o1.data()[k].p(0, 0) == o2.data()[k].p(0, 0), "stored config describes the encoding actually applied (480-line image)"); }
+        assert!(o1.width() == w && o1.height() == h, "dimensions preserved");
+    }
 }
 '''
 
@@ -146,6 +167,8 @@ def replay(ctx, spec, f):
         if any(k not in ins for k in need):
             return {"reproduced": None, "detail": "inputs not found in trace"}
         return native.replay_native(ctx, "unspec", ["yuvres"] + [ins[k] for k in need])
+    if w == "label480":
+        return native.replay_native(ctx, "unspec", ["label480"], both_profiles=False)
     if w == "rgbres":
         if "_p" in spec["name"] and spec["name"].rsplit("_p", 1)[1].isdigit():
             ins["in_p"] = int(spec["name"].rsplit("_p", 1)[1])
@@ -223,6 +246,10 @@ def plan(tier, seed):
             hs.append(dict(name="k_c15_label_content_xyb_t2_p%d" % cp, what="labelx", timeout=2400, mem_gb=16, tcx=2,
                            obligation="XYB -> YUV with Unspecified fields: label == content [primaries index %d]" % cp, sym="as above, source XYB",
                            covers=["conversion with Unspecified fields succeeded"]))
+    if thorough:
+      hs.append(dict(name="k_c15_label_content_1x480", what="label480", timeout=10800, mem_gb=24,
+                   obligation="label == content on a 1x480 / 480x1 image (where the primaries guess depends on which dimension is the height): re-encoding under the stored config gives identical samples; guessed primaries follow the real orientation",
+                   sym="orientation symbolic (1x480 or 480x1); pixels concrete; matrix ST 170M, primaries Unspecified", covers=[]))
     p.modules.append(("src/lib.rs", MOD.replace("@RGBLABEL@", rl).replace("@LABEL@", lb)))
     for h in hs:
         h.update(family="c15", replay=replay)
